@@ -172,16 +172,15 @@ Record code := mkcode {
   fx_dill : bool;       (* save_search_internal writes search_internal.dill.tmp then os.replace *)
   fx_chk : bool;        (* Fitness.check_log_likelihood ignores an unreadable summary and compares likelihood with likelihood *)
   fx_json : bool;       (* DirectoryPaths.save_json writes <name>.json.tmp then os.replace *)
-  fx_drawer : bool;     (* proposed: Drawer._fit returns its search internal (needed with paths that do not persist it) *)
-  fx_zero : bool        (* proposed: BFGS/LBFGS with maxiter = 0 returns its starting point instead of raising *)
+  fx_drawer : bool;     (* c93247b: Drawer._fit returns its search internal (needed with paths that do not persist it) *)
+  fx_zero : bool        (* f9e97f7: BFGS/LBFGS with maxiter = 0 returns its starting point instead of raising *)
 }.
 Definition current : code := mkcode false false false false false false false false.
 (* /repo as it is now: the six file-system repairs are in, the two proposed ones are not *)
 Definition six_repairs : code := mkcode true true true true true true false false.
 Definition repaired_all : code := mkcode true true true true true true true true.
-(* FLIP HERE once both proposed repairs are applied: `Definition repaired : code := repaired_all.`
-   (with only one of them: the literal with that field true) *)
-Definition repaired : code := six_repairs.
+(* /repo as it is now: all eight repairs are in; six_repairs is the state before c93247b / f9e97f7 (legacy) *)
+Definition repaired : code := repaired_all.   (* flipped after a3ae7b9 / c93247b / f9e97f7 *)
 
 Inductive exc := BadZip | KeyErr | EOFErr | Unpickling | ValueErr | JSONDecode | FileNotFound | SearchExc | UnboundLocal | OtherExc.
 Record result := mkres { r_tag : nat; r_samples : option nat; r_internal : bool }.
